@@ -167,11 +167,29 @@ class Sim:
         self.stats['returned_or_constructed_handles'] += 1
         return len(self.handles) - 1
 
+    def has_sibling(self, e):
+        return any(o is not e and o['kind'] == e['kind'] and o.get('cls') == e.get('cls') and o['name'] == e['name'] for o in self.ents)
+
     # -- argument generation
-    def scalar(self, t):
+    def scalar(self, t, overloaded=False):
         if t == 'string':
             w = ''.join(self.rng.choice('abcxyz') for _ in range(self.rng.randint(1, 4)))
+            if self.rng.random() < 0.15:
+                self.stats['string_arg_as_char_column'] += 1
+                return 'S' + w, 's' + w           # s(:) -- an N-by-1 char array holds the same string
             return 's' + w, 's' + w
+        if t in gen_iface.ARRAYS:
+            # a Vector is a double column; a Matrix any double array (with >= 2 columns when a Vector overload of the
+            # same entity is declared before it, so that exactly one overload accepts the call)
+            if t == 'Vector':
+                rows, cols = self.rng.randint(1, 4), 1
+            else:
+                rows, cols = self.rng.randint(1, 3), self.rng.randint(2 if overloaded else 1, 3)
+            vals = [self.rng.randint(0, 9) for _ in range(rows * cols)]
+            enc = sum((i + 1) * v for i, v in enumerate(vals))
+            enc += 1000 * rows if t == 'Vector' else 100000 * cols + 1000 * rows
+            self.stats['%s_arg_%dx%d' % (t, rows, cols)] += 1
+            return 'm%dx%d:%s' % (rows, cols, ','.join(map(str, vals))), 'i%d' % enc
         if t == 'size_t':
             v = self.rng.choice([0, 7, 2**31, 2**32 + 5, 2**53 + 1, 2**56 + 3, 0x7800000000000001 >> 1, 2**61 - 1,
                                  self.rng.randrange(2**53, 2**61)])
@@ -184,7 +202,7 @@ class Sim:
             return 'l%d' % v, 'i%d' % v       # int64(v) where an int is expected
         return 'i%d' % v, 'i%d' % v
 
-    def gen_args(self, params, allow_defaults=True):
+    def gen_args(self, params, allow_defaults=True, overloaded=False):
         """returns (driver tokens, model tokens, handle ids per param) or None"""
         nd = 0
         for p in reversed(params):
@@ -197,7 +215,7 @@ class Sim:
             explicit = i < len(params) - omit
             if t in gen_iface.SCALARS:
                 if explicit:
-                    a, b = self.scalar(t)
+                    a, b = self.scalar(t, overloaded)
                     dtok.append(a)
                     mtok.append(b)
                 else:
@@ -247,7 +265,7 @@ class Sim:
             [18, 10, 8, 8, 20, 6, 6, 8, 15, 1, 3 if self.void_path else 0])[0]
         if kind == 'new':
             e = rng.choice([e for e in self.ents if e['kind'] == 'ctor'])
-            g = self.gen_args(e['params'])
+            g = self.gen_args(e['params'], overloaded=self.has_sibling(e))
             dtok, mtok, _ = g
             K = e['cls']
             o = self.new_obj(K, 0)
@@ -400,7 +418,7 @@ class Sim:
                 return None
             h = rng.choice(hs)
             dself, mself = ['h%d' % h], ['h%d.%d' % (h, K)]
-        g = self.gen_args(e['params'])
+        g = self.gen_args(e['params'], overloaded=self.has_sibling(e))
         if g is None:
             return None
         dtok, mtok, hs_ = g
@@ -645,7 +663,15 @@ def supplied_values_oracle(dl, impl, first_obs):
             name = tok[1].split('.')[-1]
         want = []
         for t in supplied:
-            want.append(str(int(t[1:])) if t[0] in 'iul' else "'%s'" % t[1:] if t[0] == 's' else None)
+            if t[0] == 'm':        # the number the library shows for an array: shape and element positions
+                shape, _, vs = t[1:].partition(':')
+                rows, cols = map(int, shape.split('x'))
+                vals = [int(v) for v in vs.split(',')] if vs else []
+                lin = sum((i + 1) * v for i, v in enumerate(vals))
+                # (a Vector shows 1000*size + lin, a Matrix 100000*cols + 1000*rows + lin; either is the supplied value)
+                want.append((str(1000 * rows + lin), str(100000 * cols + 1000 * rows + lin)) if cols == 1 else str(100000 * cols + 1000 * rows + lin))
+                continue
+            want.append(str(int(t[1:])) if t[0] in 'iul' else "'%s'" % t[1:] if t[0] in 'sS' else None)
         if not any(w is not None for w in want):
             continue
         found = False
@@ -661,7 +687,7 @@ def supplied_values_oracle(dl, impl, first_obs):
                 got = m2.group(2).split(',') if m2.group(2) else []
                 if tok[0] == 'call':
                     got = got[1:]          # the receiver
-                if len(got) >= len(want) and all(w is None or g == w for g, w in zip(got, want)):
+                if len(got) >= len(want) and all(w is None or g == w or (isinstance(w, tuple) and g in w) for g, w in zip(got, want)):
                     found = True
         if not found and hi > lo:
             return 'the C++ entity did not receive the supplied argument values: operation `%s` observed as %s' % (line, impl[lo:hi])
